@@ -20,6 +20,8 @@ import SpsdkVerif.Proofs.HabSign
 import SpsdkVerif.Proofs.HabRoundtrip
 import SpsdkVerif.Proofs.HabVisible
 import SpsdkVerif.Proofs.HabRomAccept
+import SpsdkVerif.Spec.HabRom
+import SpsdkVerif.Crypto.Exec
 import SpsdkVerif.Proofs.Crypto
 
 namespace SpsdkVerif.C07
@@ -285,6 +287,37 @@ theorem hab_roundtrip_unsigned (c : Cfg) (b : Built) (h : c.WF) (h0 : c.flags = 
   exact hab_roundtrip_partial c b h hd hx happ (fun hh => by rw [hcsf] at hh; cases hh)
     (fun _ => app_visible c b h happ (fun hh => by rw [hcsf] at hh; cases hh) hv)
 
+/-! ## 8b. the ROM accepts what the builder exports -/
+
+/-- **`rom_accepts`**: for every well-formed authenticated / encrypted configuration with the standard command list
+    (`StdCfg`: Install SRK, Install CSFK, Authenticate CSF, [Set / Unlock / NOP]*, Install Key, Authenticate Data,
+    [Install Secret Key, Decrypt Data]) the INDEPENDENT ROM-side reader `Spec.HabRom.habCheck` accepts the exported image
+    — every pointer, size, data reference, key slot, block list, coverage of every non-zero byte in front of the CSF, the
+    DEK blob location, the MAC block — and what it derives is what the builder signed and encrypted: the message of the
+    CSF signature is `b.msgCsf`, the message of the data signature is `b.msgData`, and (encrypted, every `c` with
+    `CryptoLaws c`) AES-CCM decryption of the listed blocks with DEK, nonce and MAC out of the CSF gives the padded
+    application.  CMS is the abstract `Signer`; `hentry`: the entry point lies inside the application. -/
+theorem rom_accepts (cr : CryptoOps) (hl : CryptoLaws cr) (sg : Signer) (fuel : Nat) (c : Cfg) (b : Built) (s : StdCsf)
+    (h : c.WF) (hs : StdCfg c s) (ha : c.flags ≠ 0) (hb : build cr sg fuel c = some b)
+    (hfit : CsfWF c.version b.cmds)
+    (hd : ∀ d, c.dcd = some d → DcdWF d) (hx : ∀ x, c.xmcd = some x → XmcdWF x)
+    (hm : macLenOk c.macLen = true) (hn : 7 ≤ c.nonce.length ∧ c.nonce.length ≤ 13) (hver : c.version / 16 = 4)
+    (hentry : c.start + c.ils ≤ c.entry ∧ c.entry < c.start + c.ils + c.appBin.length) :
+    ∃ r, Spec.HabRom.habCheck cr (exportImage c b) (if isEnc c.flags then some c.dek else none) = .ok r ∧
+      r.msgCsf = b.msgCsf ∧ r.msgData = b.msgData ∧ r.plain = (if isEnc c.flags then some c.appBin else none) ∧
+      r.csfOff = c.csfOff ∧ r.hdrLen = csfHdrLen b.cmds ∧ r.authBlocks = offs c.ivtOff c.signedBlocks ∧
+      r.decBlocks = (if isEnc c.flags then offs c.ivtOff c.encryptedBlocks else []) :=
+  rom_accepts_lemma cr hl sg fuel c b s h hs ha hb hfit hd hx hm hn hver hentry
+
+/-- … and an unsigned container passes the layout checks of the reader (pointers, boot-data length, entry point) -/
+theorem rom_accepts_plain (cr : CryptoOps) (c : Cfg) (b : Built) (h : c.WF) (h0 : c.flags = 0)
+    (happ : b.app.length = c.appBin.length)
+    (hd : ∀ d, c.dcd = some d → DcdWF d) (hx : ∀ x, c.xmcd = some x → XmcdWF x)
+    (hentry : c.start + c.ivtOff ≤ c.entry ∧ c.entry < c.start + c.ils + c.appBin.length) :
+    ∃ r, Spec.HabRom.habCheck cr (exportImage c b) none = .ok r ∧ r.csfOff = 0 ∧ r.ivtSelf = c.start + c.ivtOff ∧
+      r.start = c.start :=
+  ⟨_, rom_accepts_plain_lemma cr c b h h0 happ hd hx hentry, rfl, rfl, rfl⟩
+
 end SpsdkVerif.C07
 
 /-! ## 9. non-vacuity, sanity checks and refutations of the full-strength statements -/
@@ -371,5 +404,44 @@ example : Cmd.decode ((Cmd.autDat 0 2 0xC5 0 0 0x7EC [(0x30001000, 64), (0x30002
     = some (.autDat 0 2 0xC5 0 0 0x7EC [(0x30001000, 64), (0x30002000, 4096)]) := by decide
 example : Cmd.decode (Cmd.unlock 0x21 0b1001 0x0123456789ABCDEF).encode = some (.unlock 0x21 0b1001 0x0123456789ABCDEF) := by
   decide
+
+/-! ### a concrete standard authenticated container: the hypotheses of `rom_accepts` are satisfiable, its conclusion by evaluation -/
+
+def exS : StdCsf :=
+  { srkAlg := 0x17, srkSrc := 1, srkBlob := hdr 0xD7 8 0x40 ++ [1, 2, 3, 4], csfkAlg := 0, csfCert := hdr 0xD7 8 0x42 ++ [5, 6, 7, 8],
+    engCsf := 0, cfgCsf := 0, extras := [.unlock 0x1E 2 0], imgAlg := 0, imgSlot := 2, imgCert := hdr 0xD7 6 0x42 ++ [9, 10],
+    engDat := 0, cfgDat := 0, skAlg := 0, kek := 0, keySlot := 0, engDec := 0, cfgDec := 0 }
+
+def exAuth : Cfg :=
+  { flags := 8, start := 0x20200000, ivtOff := 0, ils := 0x100, entry := 0x20200109, dcd := none, xmcd := none,
+    app := exApp 0x20200109, version := 0x42,
+    cmds := exS.list (fun _ => 0) (sigBlob 0x42 []) [] (sigBlob 0x42 []) none, dek := [], nonce := [], macLen := 16 }
+
+def exSigner : Signer := ⟨fun _ => [0xAA, 0xBB, 0xCC], fun _ _ => [0xDD, 0xEE, 0xFF, 0x11, 0x22]⟩
+
+theorem exAuth_builds : (build Crypto.execOps exSigner 4 exAuth).isSome = true := by decide +kernel
+
+def exB : Built := (build Crypto.execOps exSigner 4 exAuth).get exAuth_builds
+
+theorem exAuth_wf : exAuth.WF :=
+  { flags := Or.inr (Or.inl rfl), csf := rfl, ivtLe := by show 0 ≤ 0x100; decide, ils16 := by show 0x100 % 16 = 0; decide,
+    appOffKnown := by show 0x100 - 0 ∈ HabConsts.knownAppOffsets; decide,
+    notBoth := Or.inl rfl, dcdFits := fun d h => (by cases h), xmcdFits := fun x h => (by cases h),
+    addr := by
+      have : exAuth.app.length = 16 := by simp [exAuth, exApp]
+      rw [this]
+      show 0x20200000 + csfAbs (0x100 + 16) + 0x2000 + 0x200 < 2 ^ 32
+      decide,
+    entry := by show 0x20200109 < 2 ^ 32; decide, nonzero := by show 0 < 0x20200000 + 0; decide }
+
+theorem exAuth_std : StdCfg exAuth exS :=
+  { cmds := rfl, extras := by decide, srkSrc := by decide, imgSlot := by decide, kek := by decide, keySlot := by decide,
+    srkBlob := ⟨0x40, [1, 2, 3, 4], by decide, by decide⟩, csfCert := ⟨0x42, [5, 6, 7, 8], by decide, by decide⟩,
+    imgCert := ⟨0x42, [9, 10], by decide, by decide⟩ }
+
+/-- the conclusion of `rom_accepts` on this container, by evaluation: the reader accepts and reports the two messages -/
+example : (match Spec.HabRom.habCheck Crypto.execOps (exportImage exAuth exB) none with
+    | .ok r => r.msgCsf == exB.msgCsf && r.msgData == exB.msgData && r.csfOff == exAuth.csfOff
+    | .error _ => false) = true := by decide +kernel
 
 end SpsdkVerif.C07
